@@ -150,9 +150,10 @@ def opReportError (o : Op) (k : Sink) (err : Err) : Sink × Bool :=
     | none => (k, true)
     | some sc => (encodeEnd o.cform e true (k.writeHeader sc), false)
 
-/-- The Connect GET request line (`connectUnaryServerProtocol.requestLine`) for decoded value `v`:
-    `some query` = issue GET with this query, `none` = fall back to POST. -/
-def connectGetQuery (w : World) (o : Op) (v : Bytes) : Option Bytes :=
+/-- The query string of a Connect GET request for decoded value `v`
+    (`connectUnaryServerProtocol.requestLine`: stable encoding, optional compression, base64 for
+    binary or compressed data, `url.Values.Encode`). -/
+def connectGetQueryString (w : World) (o : Op) (v : Bytes) : Bytes :=
   let data := w.encode o.scodec v
   let data := match o.sReqComp with
     | some z => w.compress z data
@@ -163,7 +164,11 @@ def connectGetQuery (w : World) (o : Op) (v : Bytes) : Option Bytes :=
     (if useB64 then [(s "base64", [0x31])] else []) ++
     (match o.sReqComp with | some z => [(s "compression", z)] | none => []) ++
     [(s "connect", s "v1"), (s "encoding", o.scodec), (s "message", msgStr)]
-  let q := encodeQuery kvs
+  encodeQuery kvs
+
+/-- `some query` = issue GET with this query, `none` = the URL is too long: fall back to POST. -/
+def connectGetQuery (w : World) (o : Op) (v : Bytes) : Option Bytes :=
+  let q := connectGetQueryString w o v
   if o.conf.path.length + q.length + 1 > o.conf.maxGetURL then none else some q
 
 /-- Forwarding untouched: the handler works directly on the client's request and writer.  This is
